@@ -122,12 +122,13 @@ def perms(E, cls, nmax):
         # concretised up front: the validity test hashes the entries into a
         # C-level set, which a proxy cannot follow (values solver-enumerated)
         perm = [int(E.int('p%d' % i, -1, n)) for i in range(n)]
-        domlen = E.choice('domlen', ['same', 'none', 'longer'])
+        domlen = E.choice('domlen', ['same', 'none', 'longer', 'empty'])
         if domlen == 'none' and cls not in ('monoidal', 'rigid', 'zx', 'circuit'):
             raise Abort()
         dom = None if domlen == 'none' else mk_ty(
-            E, 'd', n + (1 if domlen == 'longer' else 0), atoms, Ty,
-            enum=False)
+            E, 'd', 0 if domlen == 'empty' else
+            n + (1 if domlen == 'longer' else 0), atoms, Ty, enum=False)
+        wrong_len = domlen == 'longer' or (domlen == 'empty' and n > 0)
         isperm = AND(*([AND(p >= 0, p < n) for p in perm] + [
             perm[i] != perm[j] for i in range(n) for j in range(i + 1, n)])) \
             if n else True
@@ -137,10 +138,10 @@ def perms(E, cls, nmax):
                 else D.permutation(list(perm))
         except ValueError:
             E.cover("refused")
-            E.check(OR(NOT(isperm), domlen == 'longer'),
-                    key + ":refused-valid")
+            E.check(OR(NOT(isperm), wrong_len), key + ":refused-valid")
             return
-        E.check(AND(isperm, domlen != 'longer'), key + ":accepted-invalid")
+        E.check(AND(isperm, not wrong_len), key + ":accepted-invalid",
+                info="perm=%s dom=%s" % (perm, dom))
         E.cover("accepted")
         perm = [int(p) for p in perm]
         E.check(welltyped(d), key + ":illtyped")
